@@ -71,24 +71,49 @@ def plan(tier, seed, models=None, extra_default=True):
     return out
 
 
+class Deferred:
+    """collects whole-run explorations and executes them concurrently (Check.explore_many)"""
+
+    def __init__(self, chk: Check):
+        self.chk = chk
+        self.jobs = []
+        self.runs = []
+
+    def add(self, select, runs, mode="solve", objective=0, time_limit=None, flags_extra=None, **kw):
+        chk = self.chk
+        known = [k for k in load_known() if k.get("harness") == "solve" and k["prop"] in select]
+        for name, cfg in runs:
+            label = f"{mode}/{name}/{cfg or 'default'}" + (f"/obj={objective}" if mode != "solve" else "") + (f"/{kw}" if kw else "")
+            params = dict(model=name, cfg=cfg, mode=mode, select=list(select), objective=objective, known=known)
+            params.update(kw)
+            self.jobs.append(dict(key="solve", params=params, label=label, time_limit=time_limit or (900 if chk.tier == "quick" else 3600), flags=dict(dict(loop_budget=6000), **(flags_extra or {}))))
+            self.runs.append((name, cfg))
+        return self
+
+    def run(self):
+        chk = self.chk
+        batch = []
+        for job, r in zip(self.jobs, chk.explore_many(self.jobs)):
+            label = job["label"]
+            for v in r.new_violations:
+                # a run made on behalf of this property: whatever it finds counts for it (the query family is kept)
+                if v.get("prop") != chk.pid:
+                    v["query_family"] = v.get("prop")
+                    v["prop"] = chk.pid
+            batch.extend(r.acc.validate[:25] if chk.tier == "quick" else r.acc.validate)
+            if r.acc.counts.get("budget-unlisted"):
+                chk.inconclusive.append(f"{label}: {r.acc.counts['budget-unlisted']} path(s) exceeded a loop budget (no result to judge; see check C04)")
+            chk.require(label, any(k.startswith("solutions:") for k in r.acc.counts) or any(k.startswith("violation") or k.startswith("abort") or k.startswith("obligation") for k in r.acc.counts), "no run completed")
+        _describe(chk, self.runs)
+        self.jobs, self.runs = [], []
+        return batch
+
+
 def run_plan(chk: Check, select, runs, mode="solve", objective=0, time_limit=None, flags_extra=None, **kw):
-    batch = []
-    known = [k for k in load_known() if k.get("harness") == "solve" and k["prop"] in select]
-    for name, cfg in runs:
-        label = f"{mode}/{name}/{cfg or 'default'}" + (f"/obj={objective}" if mode != "solve" else "") + (f"/{kw}" if kw else "")
-        params = dict(model=name, cfg=cfg, mode=mode, select=list(select), objective=objective, known=known)
-        params.update(kw)
-        n_before = len(chk.violations)
-        r = chk.explore("solve", params, label, time_limit=time_limit or (900 if chk.tier == "quick" else 3600), flags=dict(dict(loop_budget=6000), **(flags_extra or {})))
-        for v in chk.violations[n_before:]:
-            # a run made on behalf of this property: whatever it finds counts for it (the query family is kept)
-            if v.get("prop") != chk.pid:
-                v["query_family"] = v.get("prop")
-                v["prop"] = chk.pid
-        batch.extend(r.acc.validate[:25] if chk.tier == "quick" else r.acc.validate)
-        if r.acc.counts.get("budget-unlisted"):
-            chk.inconclusive.append(f"{label}: {r.acc.counts['budget-unlisted']} path(s) exceeded a loop budget (no result to judge; see check C04)")
-        chk.require(label, any(k.startswith("solutions:") for k in r.acc.counts) or any(k.startswith("violation") or k.startswith("abort") or k.startswith("obligation") for k in r.acc.counts), "no run completed")
+    return Deferred(chk).add(select, runs, mode=mode, objective=objective, time_limit=time_limit, flags_extra=flags_extra, **kw).run()
+
+
+def _describe(chk, runs):
     chk.functions.update([
         "nucs.problems.problem.Problem.__init__/add_propagator/init", "nucs.solvers.backtrack_solver.BacktrackSolver.__init__/solve/optimize/minimize/maximize/get_statistics", "solve_one", "reset",
         "nucs.solvers.bound_consistency_algorithm.bound_consistency_algorithm", "nucs.solvers.shaving_consistency_algorithm.shaving_consistency_algorithm/shave_bound", "nucs.solvers.choice_points.cp_init/cp_put/backtrack",
@@ -100,4 +125,3 @@ def run_plan(chk: Check, select, runs, mode="solve", objective=0, time_limit=Non
     for a in SOLVE_ASSUMPTIONS:
         if a not in chk.assumptions:
             chk.assumptions.append(a)
-    return batch
